@@ -78,6 +78,9 @@ ASSUMPTIONS = [
     "IndexError inside the estimate)",
 ]
 EXHAUSTIVE = {"quick": False, "thorough": False}
+#: modelled functions outside the files the property is anchored in (properties.jsonl): advisory drift detection
+ANCHORS = [("pyttb/gcp/fg_setup.py", "setup"), ("pyttb/gcp/fg_setup.py", "valid_nonneg"),
+           ("pyttb/gcp/fg_setup.py", "valid_binary"), ("pyttb/gcp/fg_setup.py", "valid_natural")]
 
 ONE_MINUS = "9007199254740991/9007199254740992"  # largest double below 1
 
